@@ -246,6 +246,26 @@ def normalise(entry, sol, dims):
     return out
 
 
+class poisoned_globals_if_empty(object):
+    """with poisoned_globals_if_empty(options): ...  - while a solver runs with an EMPTY per-call options dictionary
+    the module-level solvers.options hold loose tolerances: a solver that falls back to the globals
+    ('options = kwargs.get("options") or globals()["options"]') no longer meets the default tolerances"""
+    def __init__(self, options):
+        self.on = options is not None and len(options) == 0
+    def __enter__(self):
+        if self.on:
+            from cvxopt import solvers
+            self.saved = dict(solvers.options)
+            solvers.options.clear()
+            solvers.options.update({"show_progress": False, "feastol": 1e-2, "abstol": 1e-2, "reltol": 1e-1})
+        return self
+    def __exit__(self, *a):
+        if self.on:
+            from cvxopt import solvers
+            solvers.options.clear(); solvers.options.update(self.saved)
+        return False
+
+
 def call_entry(entry, pr, args, kktsolver=None, ps=None, ds=None, options=None, solver=None):
     """returns (sol, inner, exc)"""
     from cvxopt import solvers
@@ -257,7 +277,7 @@ def call_entry(entry, pr, args, kktsolver=None, ps=None, ds=None, options=None, 
     if options is not None and len(options) == 0:
         saved_globals = dict(solvers.options)
         solvers.options.clear()
-        solvers.options.update({"show_progress": False, "feastol": 1e-2, "abstol": 1e-2, "reltol": 1e-1, "maxiters": 3})
+        solvers.options.update({"show_progress": False, "feastol": 1e-2, "abstol": 1e-2, "reltol": 1e-1})
     try:
         return _call_entry(entry, pr, args, kktsolver, ps, ds, solver, kw)
     finally:
